@@ -31,10 +31,26 @@ ASSUMPTIONS = [
 NAMES = ["AA", "BQ", "CX", "DV", "EK", "FM", "GW", "HZ", "K2", "L7", "MU", "NB", "QY", "RJ", "SV", "UU", "VC", "WD", "XE", "YF", "ZG"]
 POSITIONS = ["top", "top", "fnarg", "read", "input", "varptr", "dim", "dim", "slot", "slot"]
 # statement templates with one expression slot ({n}: numeric expression using the variable, {s}: string expression using it)
-NUM_SLOTS = ["FOR ZI={n} TO 3:NEXT", "FOR ZI=1 TO {n}:NEXT", "FOR ZI=1 TO 3 STEP {n}+1:NEXT", "ON {n} GOTO 10", "PRINT {n}", "IF {n}>1 THEN ZN=2", "IF {n}=0 THEN ZN=1 ELSE ZN=3",
-             "ZN=ZQ({n})", "ZQ({n})=1", "POKE 1024,{n}", "SOUND {n},1", "HSET({n},2)", "PRINT@{n},\"X\"", "LOCATE 1,{n}", "ZN=INT({n})", "ZS$=STR$({n})", "ZS$=CHR$(65+{n})"]
-STR_SLOTS = ["FOR ZI=1 TO 3 STEP LEN({s})+1:NEXT", "PRINT {s}", "IF {s}=\"Q\" THEN ZN=2", "IF {s}<>\"\" THEN ZN=1 ELSE ZN=3", "ZN=ZQ(LEN({s}))", "PLAY {s}", "HPRINT(1,1),{s}",
-             "ZN=VAL({s})", "ZN=INSTR(1,{s},\"A\")", "ZS$=STRING$(2,{s}+\"*\")", "ZS$=MID$({s}+\"ABC\",1,2)", "ON ASC({s}+\"A\")-64 GOTO 10"]
+NUM_SLOTS = ["FOR ZI={n} TO 3:NEXT", "FOR ZI=1 TO {n}:NEXT", "FOR ZI=1 TO 3 STEP {n}+1:NEXT", "ON {n} GOTO 10", "ON {n} GOSUB 10", "PRINT {n}", "PRINT TAB({n});1", "PRINT 1;{n}", "PRINT -{n}",
+             "IF {n}>1 THEN ZN=2", "IF {n}=0 THEN ZN=1 ELSE ZN=3", "IF 1=>{n} THEN 10", "IF ZN=1 THEN ZN={n}", "IF ZN=1 THEN ZN=2 ELSE ZN={n}",
+             "ZN=ZQ({n})", "ZQ({n})=1", "LET ZN={n}", "ZN=-{n}", "ZN=NOT {n}", "ZN=({n})*2", "ZN={n}^2", "ZN=1 AND {n}",
+             "POKE 1024,{n}", "POKE {n},1", "POKE &HFFD9,{n}", "SOUND {n},1", "SOUND 1,{n}", "PRINT@{n},\"X\"", "PRINT@1,{n}", "LOCATE 1,{n}", "LOCATE {n},1",
+             "CLS {n}", "CLS -{n}", "WIDTH {n}", "ATTR {n},1", "ATTR 1,{n},B", "PALETTE {n},1", "PALETTE 1,{n}", "HSCREEN {n}", "HCLS {n}", "HCOLOR {n}", "HCOLOR 1,{n}",
+             "HSET({n},2)", "HSET(1,{n})", "HSET(1,2,{n})", "HRESET({n},2)", "HRESET(1,{n})", "SET({n},1,2)", "SET(1,{n},2)", "SET(1,1,{n})", "RESET({n},1)", "RESET(1,{n})",
+             "HCIRCLE({n},1),2", "HCIRCLE(1,{n}),2", "HCIRCLE(1,1),{n}", "HCIRCLE(1,1),2,{n}", "HCIRCLE(1,1),2,3,{n}", "HCIRCLE(1,1),2,,{n}", "HCIRCLE(1,1),2,3,4,{n},5",
+             "HCIRCLE(1,1),2,3,4,5,{n}", "HCIRCLE(1,1),2,,4,{n},5",
+             "HLINE({n},1)-(2,2),PSET", "HLINE(1,{n})-(2,2),PRESET", "HLINE(1,1)-({n},2),PSET,B", "HLINE(1,1)-(2,{n}),PRESET,BF", "HLINE-({n},2),PSET", "HLINE-(2,{n}),PSET,B",
+             "HPAINT({n},1)", "HPAINT(1,{n})", "HPAINT(1,1),{n}", "HPAINT(1,1),2,{n}", "HPRINT({n},1),\"X\"", "HPRINT(1,{n}),\"X\"",
+             "HBUFF {n},10", "HBUFF 1,{n}", "HGET({n},1)-(2,2),1", "HGET(1,{n})-(2,2),1", "HGET(1,1)-({n},2),1", "HGET(1,1)-(2,{n}),1", "HGET(1,1)-(2,2),{n}",
+             "HPUT({n},1)-(2,2),1,PSET", "HPUT(1,{n})-(2,2),1,AND", "HPUT(1,1)-({n},2),1,OR", "HPUT(1,1)-(2,{n}),1,XOR", "HPUT(1,1)-(2,2),{n},NOT", "HPUT(1,1)-(2,2),{n},PRESET",
+             "ZN=INT({n})", "ZN=ABS({n})", "ZN=SGN({n})", "ZN=SQR({n})", "ZN=SIN({n})", "ZN=ATN({n})", "ZN=FIX({n})", "ZN=PEEK({n})", "ZN=RND({n})", "ZN=BUTTON({n})",
+             "ZN=POINT({n},1)", "ZN=POINT(1,{n})", "ZS$=STR$({n})", "ZS$=HEX$({n})", "ZS$=CHR$(65+{n})", "ZS$=LEFT$(\"AB\",{n})", "ZS$=RIGHT$(\"AB\",{n})", "ZS$=MID$(\"ABC\",{n},1)",
+             "ZS$=MID$(\"ABC\",1,{n})", "ZS$=STRING$({n},\"*\")", "ZN=INSTR({n},\"AB\",\"B\")", "INPUT ZQ({n})", "READ ZQ({n}):DATA 1", "ZN=VARPTR(ZQ({n}))"]
+STR_SLOTS = ["FOR ZI=1 TO 3 STEP LEN({s})+1:NEXT", "PRINT {s}", "PRINT 1;{s}", "PRINT \"A\"{s}", "PRINT@1,{s}", "IF {s}=\"Q\" THEN ZN=2", "IF {s}<>\"\" THEN ZN=1 ELSE ZN=3",
+             "IF \"Q\"=<{s} THEN 10", "IF ZN=1 THEN ZS$={s}", "IF ZN=1 THEN ZN=2 ELSE ZS$={s}", "ZN=ZQ(LEN({s}))", "PLAY {s}", "HDRAW {s}", "HPRINT(1,1),{s}",
+             "LET ZS$={s}", "ZS$=\"A\"+{s}", "ZS$={s}+\"A\"", "ZN=VAL({s})", "ZN=LEN({s})", "ZN=ASC({s})", "ZN=INSTR(1,{s},\"A\")", "ZN=INSTR(1,\"A\",{s})", "ZS$=STRING$(2,{s}+\"*\")",
+             "ZS$=STRING$(2,{s})", "ZS$=MID$({s}+\"ABC\",1,2)", "ZS$=MID$({s},1,2)", "ZS$=LEFT$({s},1)", "ZS$=RIGHT$({s},1)", "ON ASC({s}+\"A\")-64 GOTO 10",
+             "ZQ(LEN({s}))=1", "POKE 1024,LEN({s})", "HSET(LEN({s}),1)", "HGET(LEN({s}),1)-(2,2),1", "SOUND LEN({s}),1"]
 
 
 @functools.lru_cache(maxsize=None)
@@ -112,11 +128,13 @@ def cases(draw, switches):
         elif pos == "slot":
             tmpl = draw(st.sampled_from(STR_SLOTS if sfx else NUM_SLOTS))
             body.append(tmpl.format(n=ref, s=ref))
-            v["pos"] = "slot:" + tmpl.split("{")[0].strip()[:14]
+            v["pos"] = "slot:" + tmpl.replace("{n}", "_").replace("{s}", "_")[:24]
+        if pos == "slot" and tmpl.startswith(("INPUT", "READ", "ZN=VARPTR")):
+            pos = "input"  # the variable sits inside a READ / INPUT / VARPTR operand: same open finding as the target itself
         if pos in ("read", "input", "varptr") and "rw_targets_also_top_level" in switches:
             # open finding: names seen only as READ / INPUT targets or under VARPTR are not declared
             body.append("%s=%s" % (ref, '"T"' if sfx else "1"))
-            v["pos"] = pos + "+top"
+            v["pos"] = v["pos"] + "+top"
         vars_.append(v)
     # a statement that needs string temporaries
     if draw(st.booleans()):
